@@ -239,7 +239,7 @@ class Exec:
                     if starved:
                         e = {"seq": len(self.events), "k": "STARVED", "starved": starved}
                         self.events.append(e)
-                    blocked = self._blocked_before_entry([t for t in missing if t.tid is not None])
+                    blocked = self._blocked_before_entry([t for t in missing if t.tid is not None][:3])
                     if blocked:
                         self.events.append({"seq": len(self.events), "k": "BLOCKED", "blocked": blocked})
                     return
@@ -261,6 +261,9 @@ class Exec:
                     ok = False
                     break
                 fr = sys._current_frames().get(t.ident)
+                # (a wait on a lock / semaphore / condition of the standard library counts for the frame that asked for it)
+                while fr is not None and fr.f_code.co_filename.endswith("/threading.py") and fr.f_back is not None:
+                    fr = fr.f_back
                 here = f"{fr.f_code.co_filename}:{fr.f_lineno}:{fr.f_code.co_name}" if fr is not None else ""
                 if state != "S" or "/tawazi/" not in here or t.site is not None or (where is not None and here != where):
                     ok = False
